@@ -1,5 +1,3 @@
 SPECIFICATION TSpec
 CONSTRAINT Report
-INVARIANT InvTies
-INVARIANT InvBars
 CHECK_DEADLOCK FALSE
